@@ -458,7 +458,7 @@ def mRun (strict : Bool) : List (COp Req) → Cfg Req Resp → Cfg Req Resp
           { c with down := { c.down with msgs := [] }, m := { c.m with yielded := c.m.yielded ++ c.down.msgs } }
         match downRecv c'.down with
         | none => { c' with m := { c'.m with ops := op :: rest } }
-        | some (.msg _ _) => c'                                           -- not reached: no message is left
+        | some (.msg _ _) => { c' with m := { c'.m with ops := op :: rest } }   -- not reached: no message is left
         | some .eof => mRun strict rest c'
         | some (.err e) => failM c' (.grpcError e)
     | .exitCtx =>
